@@ -114,6 +114,8 @@ def shard(part: core.Part, shard_i, nshards, tier, seed, deadline, phase):
         problems, judged, nontrivial, outcome = judge(base, R)
         part.case(base, nontrivial, outcome=outcome, sample={"case": pg.descriptor(base, seed), "outer": R.rec.kinds(), "subscriptions": [(s["source"], s["sub_time"], s["unsub_time"]) for s in R.env.sublog]} if nontrivial else None)
         part.count("judged" if judged else "not_judged:" + str(outcome[0]))
+        if R.drain == "budget":
+            part.count("runs_with_endless_activity_after_horizon")
         for p in problems[:1]:
             part.violation(signature(base, p), f"{pg.pname(base[0])} over {base[1]} {base[2]} (inner policy {base[3]}): {p[2]}", pg.descriptor(base, seed), problems=[x[2] for x in problems])
 
